@@ -330,6 +330,10 @@ def main : IO Unit := do
     (fun bs => [Generated.countU8Parse bs, Generated.countU16Parse bs, Generated.countU32Parse bs, Generated.countU64Parse bs,
       Generated.sizeParse bs, Generated.offsetParse bs].map outcomeText)
     (fun bs => [takeLE bs 1, takeLE bs 2, takeLE bs 4, takeLE bs 8, takeLE bs 8, takeLE bs 8].map outcomeText)
+  cmp1 "indexWrappers" wrapIn
+    (fun bs => [Generated.idxU8Parse bs, Generated.idxU16Parse bs, Generated.idxU32Parse bs, Generated.idxU64Parse bs,
+      Generated.idU8Parse bs, Generated.idU16Parse bs].map outcomeText)
+    (fun bs => [takeLE bs 1, takeLE bs 2, takeLE bs 4, takeLE bs 8, takeLE bs 1, takeLE bs 2].map outcomeText)
   -- the cluster header in front of the tail: every compression byte class, offset widths 0, 1, 8, 9, truncations
   let compNat : Generated.SrcCompression → Nat := fun c => match c with | .none => 0 | .lz4 => 1 | .lzma => 2 | .zstd => 3
   let clHeads : List Bytes := clTails ++ [[], [0], [4], [0, 1], [0, 0, 1, 0], [0, 9, 1, 0], [0, 8, 1, 0, 7], [2, 8, 255, 255], [4, 1, 1, 0], [255, 1, 1, 0], [3, 1, 1]]
